@@ -391,12 +391,14 @@ class Replay(_Base):
         return None
 
 
-def reference_run(job):
-    """Run one job alone under the same tracer: (result, n_line_events, trace_hash, fn_counts)."""
+def reference_run(job, lines=False):
+    """Run one job alone under the same tracer: (result, n_line_events, trace_hash, fn_counts
+    [, {(file, line): [step indices at which that source line is reached]}])."""
     class Solo(_Base):
         def __init__(self):
             super().__init__(None)
             self.fn_counts = {}
+            self.line_steps = {}
 
         def first(self, sim, runnable):
             return 0
@@ -405,9 +407,16 @@ def reference_run(job):
             if sim.is_entry:
                 nm = frame.f_code.co_name
                 self.fn_counts[nm] = self.fn_counts.get(nm, 0) + 1
+            if lines:
+                key = (os.path.basename(frame.f_code.co_filename), frame.f_lineno)
+                lst = self.line_steps.setdefault(key, [])
+                if len(lst) < 64:
+                    lst.append(sim.steps[wid])
             return None
     solo = Solo()
     sim = ThreadSim([job], solo).run()
+    if lines:
+        return sim.results[0], sim.steps[0], sim.trace_hash[0], solo.fn_counts, solo.line_steps
     return sim.results[0], sim.steps[0], sim.trace_hash[0], solo.fn_counts
 
 
